@@ -60,7 +60,7 @@ func (c *c09Collector) SetStatus(r string, err error) {
 // The pipeline reports per-recipient results under the addresses the client
 // supplied, exactly one per accepted recipient, whatever the rewriting.
 func harness_C09_pipeline() {
-	shape := nondetChoice("rewrite", 4) // 0 none, 1 one-to-one, 2 one-to-two, 3 two-to-one
+	shape := nondetChoice("rewrite", 5) // 0 none, 1 one-to-one, 2 one-to-two, 3 two-to-one, 4 a->b and b->c with a and b both supplied
 	verifTag("rewriteShape", shape)
 	rw := map[string][]string{}
 	clients := []string{"a@example.org"}
@@ -73,12 +73,18 @@ func harness_C09_pipeline() {
 		clients = []string{"a@example.org", "b@example.org"}
 		rw["a@example.org"] = []string{"x@example.net"}
 		rw["b@example.org"] = []string{"x@example.net"}
+	case 4:
+		// a non-recursive forward table: the first recipient is rewritten to the
+		// spelling of the second one, the second one to a third address
+		clients = []string{"a@example.org", "b@example.org"}
+		rw["a@example.org"] = []string{"b@example.org"}
+		rw["b@example.org"] = []string{"c@example.org"}
 	}
 	if shape < 3 && nondetBool("second") {
 		clients = append(clients, "c@example.org")
 	}
 	tgt := &c09Target{fail: map[string]bool{}}
-	for _, e := range []string{"a@example.org", "c@example.org", "x@example.net", "y@example.net"} {
+	for _, e := range []string{"a@example.org", "b@example.org", "c@example.org", "x@example.net", "y@example.net"} {
 		if nondetBool("fail." + e) {
 			tgt.fail[e] = true
 		}
